@@ -171,7 +171,8 @@ def shard_features(m, items):
         except Exception as e:  # noqa
             m.violation(f'seed-does-not-compile/{name}', grammar=text, error=str(e)[:200])
             continue
-        inputs = c02.feature_inputs(name, 'quick')[:400]
+        inputs = c02.feature_inputs(name, 'quick')[:8000]
+        impl.rule_reach(m, 'feature-grammar-rules', name, model, inputs, **impl.with_start(model, {}))
         check_model(m, text, model, inputs)
         # the same model reloaded from JSON
         try:
